@@ -17,6 +17,8 @@ import traceback
 
 from . import VERIF_DIR, REPO_SRC, setup_paths
 
+SCRATCH_TREE = os.path.realpath(REPO_SRC) != os.path.realpath("/repo/src")
+
 setup_paths()
 
 import hypothesis  # noqa: E402
@@ -738,7 +740,7 @@ def _fails_in_fresh_process(mod, path, sig):
 
 
 def write_replay(prop, part, sig, case, detail, history=None):
-    d = os.path.join(VERIF_DIR, "replay", prop)
+    d = os.path.join(VERIF_DIR, "replay" if not SCRATCH_TREE else "scratch/replay", prop)
     os.makedirs(d, exist_ok=True)
     body = {"property": prop, "part": part, "signature": sig, "detail": detail[:4000], "case": case}
     if history:
@@ -856,7 +858,9 @@ def write_evidence(mod, tier, seed, by_part, parts, nviol, known_lines, wall):
         "wall_s": round(wall, 2),
         "violations": nviol,
     }
-    d = os.path.join(VERIF_DIR, "evidence")
+    # evidence/ describes runs against /repo itself; a run pointed at a scratch tree
+    # (VERIF_REPO, used for seeded changes) writes to scratch/ (not committed)
+    d = os.path.join(VERIF_DIR, "evidence" if not SCRATCH_TREE else "scratch/evidence")
     os.makedirs(d, exist_ok=True)
     with open(os.path.join(d, f"{prop}.json"), "w") as f:
         json.dump(ev, f, indent=1, default=repr)
